@@ -520,3 +520,83 @@ def rule_allpair(prog, rep, tier, anchor="gen.gen"):
             rep.holds("ALL-PAIR", "__all__ built after the definitions", loc(prog, ac), "statement order")
         else:
             rep.violation(Finding("ALL-PAIR", anchor, "eval-order", "__all__ is built before the definitions are generated", loc(prog, ac)))
+
+
+def rule_gen_layout(prog, rep, tier, anchor="gen.gen"):
+    """GEN-LAYOUT (C19): the module text is assembled from one template whose placeholders come in the order
+    prepend < imports < definitions < __all__, each exactly once."""
+    fi = prog.fn(anchor)
+    found = False
+    for c in ast.walk(fi.node):
+        if isinstance(c, ast.Call) and isinstance(c.func, ast.Attribute) and c.func.attr == "format" and isinstance(c.func.value, ast.Constant) and isinstance(c.func.value.value, str):
+            kws = {k.arg for k in c.keywords if k.arg}
+            if not ({"prepend", "imports"} <= kws):
+                continue
+            found = True
+            import string
+            fields = [f for _, f, _, _ in string.Formatter().parse(c.func.value.value) if f]
+            roles = []
+            for f in fields:
+                kv = next((k.value for k in c.keywords if k.arg == f), None)
+                if f == "prepend":
+                    roles.append("prepend")
+                elif f == "imports":
+                    roles.append("imports")
+                elif kv is not None and any(isinstance(x, ast.Constant) and x.value == "__all__" for x in ast.walk(kv)):
+                    roles.append("__all__")
+                else:
+                    roles.append("definitions")
+            want = ["prepend", "imports", "definitions", "__all__"]
+            if roles == want:
+                rep.holds("GEN-LAYOUT", "template %r: %s" % (c.func.value.value, " < ".join(roles)), loc(prog, c), "each part once, in order")
+            else:
+                rep.violation(Finding("GEN-LAYOUT", anchor, "template-order:%s" % ",".join(roles),
+                                      "the generated module is assembled as %s (template %r); expected %s, each exactly once: prepended text and imports "
+                                      "must come once, before the definitions, and __all__ after them" % (roles, c.func.value.value, want), loc(prog, c)))
+    if not found:
+        # f-string / concatenation form: accept if a string shape shows the four holes in order
+        rep.ob("GEN-LAYOUT", "module template", "unresolved", loc(prog, fi.node), "no `'...'.format(prepend=..., imports=..., ...)` template found")
+
+
+def rule_pairs_all(prog, rep, tier, anchor="sync_properties.sync_properties", per_pair="sync_properties.sync_property"):
+    """PAIRS (C14): every (input, output) pair is applied: the pair loop iterates zip(<both parameter lists>) in full,
+    its body calls the per-pair worker unconditionally, and the tree it returns is the tree handed to the next pair."""
+    fi = prog.fn(anchor)
+    params = set(fi.params())
+    calls = [c for c in ast.walk(fi.node) if isinstance(c, ast.Call) and prog.is_fn(c.func, per_pair, c)]
+    if not calls:
+        raise AnalysisError("PAIRS: %s no longer calls %s" % (anchor, per_pair))
+    for c in calls:
+        loop = None
+        p = c._parent
+        while p is not None and p is not fi.node:
+            if isinstance(p, (ast.For, ast.comprehension)):
+                loop = p
+                break
+            p = p._parent
+        if loop is None:
+            rep.violation(Finding("PAIRS", anchor, "no-pair-loop", "%s is called outside a loop over the pairs: only one pair is applied" % per_pair, loc(prog, c)))
+            continue
+        it = loop.iter
+        problems = []
+        if not (isinstance(it, ast.Call) and isinstance(it.func, ast.Name) and it.func.id == "zip" and len(it.args) == 2
+                and all(isinstance(a, ast.Name) and a.id in params for a in it.args)):
+            problems.append("the loop iterates %s, not zip(<input list>, <output list>) of the worker's parameters in full" % src(it, 60))
+        from sa.cfg import expr_guards as _eg
+        gs = _eg(c, stop=loop) if isinstance(loop, ast.For) else [(x, True) for x in loop.ifs]
+        if gs:
+            problems.append("the per-pair call is conditional (%s)" % src(gs[0][0], 50))
+        if isinstance(loop, ast.For) and any(isinstance(x, ast.Break) for x in ast.walk(loop)):
+            problems.append("the loop can break early")
+        # threading of the output tree
+        st = c
+        while not isinstance(st, ast.stmt):
+            st = st._parent
+        if isinstance(st, ast.Assign) and isinstance(st.targets[0], ast.Name):
+            tname = st.targets[0].id
+            if tname not in names_in(c):
+                problems.append("the tree returned for one pair (%s) is not the tree passed for the next" % tname)
+        if problems:
+            rep.violation(Finding("PAIRS", anchor, "pair-loop", "; ".join(problems), loc(prog, loop if isinstance(loop, ast.For) else c)))
+        else:
+            rep.holds("PAIRS", "%s: every pair of zip(%s) is applied, result threaded" % (anchor, ", ".join(a.id for a in it.args)), loc(prog, c), "")
